@@ -1637,8 +1637,119 @@ fn cross_kind(ctx: &mut Ctx) {
 		drop(m);
 		crate::probes::reap_decoder(first, &st);
 	}
-	ctx.traces += 26;
-	ctx.transitions += 20 + 12 * 7 + 26 + 36 + 100;
+	// 10. a command on a track handle followed by the drop of that handle in the same interval, on a track that outlives its
+	//     handle (it persists until its sounds finish, or a child track of it is alive): the command still takes effect
+	for variant in 0..3 {
+		for cmd in 0..2 {
+			for warm in [0usize, 2] {
+				ctx.evals += 1;
+				let mut m = rig::manager(8, 1, rig::caps(4), MainTrackBuilder::new());
+				let mut keep: Vec<Box<dyn std::any::Any>> = vec![];
+				let mut t = match variant {
+					0 => {
+						let mut t = m.add_sub_track(TrackBuilder::new().persist_until_sounds_finish(true)).unwrap();
+						keep.push(Box::new(t.play(dc_loop(8, 0.5)).unwrap()));
+						t
+					}
+					1 => {
+						let mut t = m.add_sub_track(TrackBuilder::new()).unwrap();
+						let mut c = t.add_sub_track(TrackBuilder::new()).unwrap();
+						keep.push(Box::new(c.play(dc_loop(8, 0.5)).unwrap()));
+						keep.push(Box::new(c));
+						t
+					}
+					_ => {
+						// both: a persisting parent whose own sound plays, plus a live child
+						let mut t = m.add_sub_track(TrackBuilder::new().persist_until_sounds_finish(true)).unwrap();
+						keep.push(Box::new(t.play(dc_loop(8, 0.25)).unwrap()));
+						let mut c = t.add_sub_track(TrackBuilder::new()).unwrap();
+						keep.push(Box::new(c.play(dc_loop(8, 0.25)).unwrap()));
+						keep.push(Box::new(c));
+						t
+					}
+				};
+				for _ in 0..warm {
+					rig::callback(&mut m, &mut buf, 1, 2);
+				}
+				if cmd == 0 {
+					t.set_volume(Decibels::SILENCE, instant());
+				} else {
+					t.pause(instant());
+				}
+				drop(t);
+				let mut heard = vec![];
+				for _ in 0..4 {
+					rig::callback(&mut m, &mut buf, 1, 2);
+					heard.push(buf[0]);
+				}
+				// (the first callback may still carry the old level: an instant tween completes at its first update, the fade is
+				// interpolated inside that buffer)
+				if heard[1..].iter().any(|v| *v != 0.0) {
+					ctx.fail(
+						"a command issued on a track handle just before the handle is dropped is lost although the track lives on :: cross-kind",
+						format!(
+							"{}; {} callback(s); {}; drop(handle); 4 callbacks of 1 frame: left channel {:?}, expected silence from the second on",
+							["persist_until_sounds_finish(true) track with a looping DC sound", "track whose child track (handle alive) carries a looping DC sound", "persisting track with its own sound and a live child track with a sound"][variant],
+							warm,
+							["set_volume(SILENCE, instant)", "pause(instant)"][cmd],
+							heard
+						),
+					);
+				}
+				ctx.nontrivial(hash64(&("cmd then drop", variant, cmd, warm)));
+				drop(keep);
+			}
+		}
+	}
+	// 11. static sound: a loop-region change and a seek issued (in this order) in one interval: the seek lands where it would
+	//     with the new region in force (commands of different kinds do not interfere)
+	for (new_lp, seek_by) in [(None, false), (None, true), (Some((8usize, 14usize)), false)] {
+		for gap in [true, false] {
+			ctx.evals += 1;
+			let mut m = rig::manager(8, 1, rig::caps(2), MainTrackBuilder::new());
+			let frames: Vec<Frame> = (0..16).map(|i| Frame::from_mono((i + 1) as f32 / 32.0)).collect();
+			let mut h = m.play(rig::static_data(8, frames).loop_region(region(1, 4))).unwrap();
+			for _ in 0..3 {
+				rig::callback(&mut m, &mut buf, 1, 2);
+			}
+			let before = h.position();
+			h.set_loop_region(new_lp.map(|(a, b)| region(a, b)));
+			if gap {
+				rig::callback(&mut m, &mut buf, 1, 2);
+			}
+			let base = h.position();
+			if seek_by {
+				h.seek_by(1.0);
+			} else {
+				h.seek_to(10.0 / 8.0);
+			}
+			// (the reported position is that of the frame being heard, which trails the transport by the interpolation window)
+			for _ in 0..4 {
+				rig::callback(&mut m, &mut buf, 1, 2);
+			}
+			let pos = h.position() * 8.0;
+			let target = if seek_by { base * 8.0 + 8.0 } else { 10.0 };
+			// anything wrapped into the old loop region lies below frame 4
+			if !(pos >= target - 2.5 && pos <= target + 4.5) {
+				ctx.fail(
+					"a seek issued together with (after) a loop-region change lands as if the old loop region were still in force :: cross-kind",
+					format!(
+						"16-frame static sound looping frames 1..4 at position {:.3} s; set_loop_region({:?}); {}{}; four callbacks later position = frame {:.2}, expected frame {:.2} to {:.2} + 4 (or inside the new loop region)",
+						before,
+						new_lp,
+						if gap { "one callback; " } else { "" },
+						if seek_by { "seek_by(1 s)" } else { "seek_to(frame 10)" },
+						pos,
+						target,
+						target
+					),
+				);
+			}
+			ctx.nontrivial(hash64(&("loop then seek", new_lp, seek_by, gap)));
+		}
+	}
+	ctx.traces += 26 + 36 + 6;
+	ctx.transitions += 20 + 12 * 7 + 26 + 36 + 100 + 36 * 6 + 6 * 6;
 	ctx.state(hash64(&"cross"));
 	ctx.outcome(hash64(&"cross"));
 }
